@@ -43,17 +43,9 @@ func runC18(p *load.Program, r *core.Report) {
 		r.Unk(rule, "C18.V1|fn", "", "", "RouteSendEvent found", "not found")
 	} else {
 		fn := fname(send)
-		var tokenPar, msgPar, fromPar *ssa.Parameter
-		for _, pa := range send.Params {
-			switch pa.Name() {
-			case "token":
-				tokenPar = pa
-			case "message":
-				msgPar = pa
-			case "from":
-				fromPar = pa
-			}
-		}
+		tokenPar := paramOfType(send, "gen.Ref", 0)
+		msgPar := paramOfType(send, "gen.MessageEvent", 0)
+		fromPar := paramOfType(send, "gen.PID", 0)
 		var fan ssa.Instruction
 		eachInstr(send, func(in ssa.Instruction) {
 			if callsNamed(in, "GetConsumersForTarget") {
